@@ -1046,6 +1046,25 @@ fn run_case(idx: u64, g: &Gen, hist: &mut Hist) -> CaseResult {
                             }
                             _ => failures.push((format!("C05: round trip failed: decode(encode(p)) = {}", describe(&r)), si)),
                         }
+                        // the same packet under a configured protocol identity (ConfigBuilder::protocol_identity;
+                        // the model and the case files are for the default identity): it must come back
+                        // unchanged, the identity of its header included, and a decoder configured with
+                        // another id or version must reject the datagram
+                        let h = idx.wrapping_mul(0x9E3779B97F4A7C15).wrapping_add(si as u64);
+                        let pid = [b'd', b'i', b's', b'c', b'v', (h & 0xff) as u8];
+                        let ver = [0u8, ((h >> 8) & 0x7) as u8 + 2];
+                        let (d3, dst3) = (d.clone(), *dst);
+                        match catch(move || discv5::verif::packet::packet_roundtrip_with_identity(&d3, &dst3, pid, ver)) {
+                            Ok(Ok(true)) => hist.add("roundtrip/configured-identity-ok"),
+                            Ok(Ok(false)) => failures.push(("C05: round trip under a configured protocol identity returned another packet (identity or fields differ)".into(), si)),
+                            Ok(Err(e)) => failures.push((format!("C05: round trip under a configured protocol identity failed: {}", e), si)),
+                            Err(m) => failures.push((format!("C05: Packet::decode panicked under a configured protocol identity: {}", m), si)),
+                        }
+                        let (d4, dst4) = (d.clone(), *dst);
+                        let other = if h & 0x100 == 0 { (pid, [0u8, 1]) } else { (*b"discv5", ver) };
+                        if let Ok(false) = catch(move || discv5::verif::packet::packet_foreign_identity_rejected(&d4, &dst4, (pid, ver), other)) {
+                            failures.push(("C05: a datagram with a foreign protocol id or version was accepted".into(), si));
+                        }
                     }
                     if g.foreign_decode && l != dst && l[..16] != dst[..16] {
                         if let DecRes::Ok(..) = &r {
